@@ -101,7 +101,29 @@ class Report:
             self.assumptions.append(text)
 
     # -- finishing ---------------------------------------------------------
+    def _restructure_gate(self):
+        """violations of shape-dependent rules inside a function that was restructured since the rules were anchored become UNDECIDED"""
+        try:
+            from . import shapes
+            rs = shapes.restructured(self.repo)
+        except Exception as ex:          # the gate only ever downgrades: a failure leaves the verdicts as they are
+            self.notes.append(f"restructure gate not applied: {type(ex).__name__}: {ex}")
+            return
+        self.extra["restructured_files"] = rs
+        if not rs:
+            return
+        for e in self.entries:
+            if e.verdict != "VIOLATION" or shapes.shape_free(e.rule):
+                continue
+            fn = (e.func or "")
+            d = rs.get(e.file or "", 0)
+            if d:
+                e.verdict = "UNDECIDED"
+                e.detail = (f"[{e.file} was restructured since the rules were anchored (structural distance {d} >= {shapes.THRESHOLD}): the clause could not be "
+                            f"re-established on the new shape of {fn or 'the code'}; re-anchor the rule] " + (e.detail or ""))[:600]
+
     def finish(self, explanation, write=True):
+        self._restructure_gate()
         known = load_known()
         openk = {k["key"]: k for k in known if k.get("status") == "open" and k.get("property") == self.pid}
         viol, kf = [], []
